@@ -39,35 +39,20 @@
       (error "sorted?: not a list or vector" seq)))))
 
 (define (merge! ls1 ls2 less . o)
-  (let ((key (if (pair? o) (car o) (lambda (x) x))))
-    (define (lp prev ls1 ls2 a b less key)
+  (let ((key (if (pair? o) (car o) (lambda (x) x)))
+        (head (cons #f '())))
+    ;; stable: an element of ls2 is taken only when strictly less
+    (let lp ((tail head) (ls1 ls1) (ls2 ls2))
       (cond
-       ((less a b)
-        (if (null? (cdr ls1))
-            (set-cdr! ls1 ls2)
-            (lp ls1 (cdr ls1) ls2 (key (car (cdr ls1))) b less key)))
+       ((null? ls1) (set-cdr! tail ls2))
+       ((null? ls2) (set-cdr! tail ls1))
+       ((less (key (car ls2)) (key (car ls1)))
+        (set-cdr! tail ls2)
+        (lp ls2 ls1 (cdr ls2)))
        (else
-        (set-cdr! prev ls2)
-        (if (null? (cdr ls2))
-            (set-cdr! ls2 ls1)
-            (lp ls2 (cdr ls2) ls1 (key (car (cdr ls2))) a less key)))))
-    (cond
-     ((null? ls1) ls2)
-     ((null? ls2) ls1)
-     (else
-      (let ((a (key (car ls1)))
-            (b (key (car ls2))))
-        (cond
-         ((less a b)
-          (if (null? (cdr ls1))
-              (set-cdr! ls1 ls2)
-              (lp ls1 (cdr ls1) ls2 (key (car (cdr ls1))) b less key))
-          ls1)
-         (else
-          (if (null? (cdr ls2))
-              (set-cdr! ls2 ls1)
-              (lp ls2 (cdr ls2) ls1 (key (car (cdr ls2))) a less key))
-          ls2)))))))
+        (set-cdr! tail ls1)
+        (lp ls1 (cdr ls1) ls2))))
+    (cdr head)))
 
 (define (merge ls1 ls2 less . o)
   (let ((key (if (pair? o) (car o) (lambda (x) x))))
